@@ -1,0 +1,8 @@
+//go:build verif
+
+// Contracts for package extracttdx, checked by /verif (govc). Comment-only; compiled only under -tags verif.
+package extracttdx
+
+//@ func GCETcbObjectName
+//@   assigns nothing
+//@   ensures[C16] result == tdxObjectName(val(measurement))
